@@ -49,7 +49,9 @@ fn compare_instantiated(before: &v1::Function, after: &v1::Function, p: &BTreeMa
             e == g
         } else {
             let a = abs_expected.terms.get(k).cloned().unwrap_or_else(Q::zero);
-            (e - g).abs() <= gamma(2 * (nterms + deg) + 8) * a + Q::from_integer((nterms as u64 + 2).into()) * eps() * amplification(&pq, deg)
+            let tiny = tiny_terms_partial(before, &abs_p).terms.get(k).cloned().unwrap_or_else(Q::zero);
+            let _ = deg;
+            (e - g).abs() <= gamma(2 * (nterms + deg) + 8) * a + tiny + Q::from_integer((nterms as u64 + 2).into()) * eps()
         };
         if !ok {
             return Some(format!("coefficient of {k:?}: SDK {} ({:e}), exact {} ({:e}), judged {}", g, q_to_f64(g), e, q_to_f64(e), if exact { "exactly" } else { "within bound" }));
@@ -114,7 +116,7 @@ impl Property for C10 {
         let mut pool: Vec<u64> = g.pool.clone();
         pool.extend(pids.iter().cloned());
         let mut fcfg = FnCfg::new(pool, regime);
-        fcfg.max_terms = 5;
+        fcfg.max_terms = if k % 29 == 3 { 80 } else { 5 };
         fcfg.max_degree = 3;
         if !pids.is_empty() {
             if rng.chance(3, 4) {
@@ -144,7 +146,7 @@ impl Property for C10 {
         }
         // assignment
         let scenario = if pids.is_empty() { rng.below(2) } else { rng.below(5) };
-        let mut assign: BTreeMap<u64, f64> = pids.iter().map(|p| (*p, value(rng, regime))).collect();
+        let mut assign: BTreeMap<u64, f64> = pids.iter().map(|p| (*p, value_x(rng, regime))).collect();
         let sname = match scenario {
             0 => "complete",
             1 => {
